@@ -21,7 +21,7 @@ MANIFEST = dict(
          'the select) is outside the theorems\' conclusions. Trusted: Lean kernel; axioms propext/Classical.choice/Quot.sound; extractor; harness, '
          'the mechanical call-site renaming that routes connect-path syscalls to the script, line protocol. Assumes socket(2) returns numbers > 2 '
          '(netFD.Close skips 0-2; witness C14_fd_le_2_leaks), poller events for the temporary operator only after EPOLL_CTL_ADD returned. '
-         'connection.register failure and bind/address errors are modelled but not executed by the harness. See DESIGN.md §6 C14 and §8.',
+         'bind/address errors before connect are modelled but not executed by the harness. See DESIGN.md §6 C14 and §8.',
     technique='Lean 4 invariant proofs over syscall/wake-up scripts + scripted differential correspondence + real-socket spec oracle', design='§6 C14')
 MODULES = ['Netpoll.Props.C14', 'Netpoll.Tie.Dial']
 # functions the hand-written model mirrors (a changed fingerprint escalates the search budget, never alarms by itself)
@@ -178,7 +178,7 @@ def run(rep, prop=PROP):
         skipped |= set(r['skipped']); samples += r['samples'][:1]
 
     expected_branches = ['e0=115', 'e0=0', 'e0=106', 'e0=114', 'e0=4', 'e0=22', 'e0=99', 'e0=111', 'so=0', 'so=115', 'so=106', 'so=111', 'so=99',
-                         'pick=w', 'pick=h', 'pick=c', 'ctlerr', 'gsoerr', 'peerfail', 'multi-event', 'late', 'selfconnect', 'nolocal', 'retry']
+                         'pick=w', 'pick=h', 'pick=c', 'regerr', 'ctlerr', 'gsoerr', 'peerfail', 'multi-event', 'late', 'selfconnect', 'nolocal', 'retry']
     rep.cov['evaluations'] = scen + dials + ncorpus
     rep.cov['distinct_nontrivial'] = len(classes) + len(by_class)
     rep.cov['rule'] = ('scripted: scenarios generated by go/inpkg/dialh.go (connect(2) errno, wake-up lists, SO_ERROR, getpeername, epoll_ctl failure, late poller events, '
@@ -192,7 +192,7 @@ def run(rep, prop=PROP):
     rep.cov['scripted_outcomes'] = outcomes
     rep.cov['scripted_branch_histogram'] = branches
     rep.cov['model_branches_never_hit'] = [x for x in expected_branches if not branches.get(x)] + \
-        ['connection.register failure (regErr)', 'bind / address-conversion error before connect']
+        ['bind / address-conversion error before connect (DialConnection passes no local address)']
     rep.cov['stdlib_errno_facts_compared'] = hist.get('errnotimeout', 0) + hist.get('exctimeout', 0)
     rep.cov['real_dials'] = dials
     rep.cov['real_dials_in_concurrent_batches'] = conc
